@@ -7,7 +7,7 @@ from __future__ import annotations
 def run(ctx):
     from vlib import solvercases as sc
 
-    sc.run_property(ctx, "C05", strict_multi=False, n_scripted=ctx.n(400, 6000), n_evqe=ctx.n(8, 60), enum_events=None if ctx.quick else 5)
+    sc.run_property(ctx, "C05", strict_multi=False, n_scripted=ctx.n(600, 6000), n_evqe=ctx.n(18, 60), enum_events=None if ctx.quick else 5)
 
 
 def replay(ctx, payload):
